@@ -66,6 +66,26 @@ func findOtherFS() string {
 	return ""
 }
 
+// ensureDevFull reports whether /dev/full is the character device 1:7. A change under test that removes or replaces
+// its destination before writing (run with root rights, as in this sandbox) turns the node into a regular file, and
+// every later run would silently lose the "every write fails" class: the node is put back when that is possible.
+func ensureDevFull() bool {
+	fi, err := os.Stat("/dev/full")
+	if err == nil && fi.Mode()&os.ModeCharDevice != 0 {
+		return true
+	}
+	if os.Geteuid() != 0 {
+		return false
+	}
+	os.Remove("/dev/full")
+	if err := syscall.Mknod("/dev/full", syscall.S_IFCHR|0o666, 1<<8|7); err != nil {
+		return false
+	}
+	os.Chmod("/dev/full", 0o666)
+	fi, err = os.Stat("/dev/full")
+	return err == nil && fi.Mode()&os.ModeCharDevice != 0
+}
+
 const (
 	srcRegular = iota
 	srcViaSymlink
@@ -184,9 +204,10 @@ func run(s scen) (msg string, skipped bool) {
 		return "", true
 	}
 	if s.dst == dstDevFull {
-		if fi, err := os.Stat("/dev/full"); err != nil || fi.Mode()&os.ModeCharDevice == 0 {
+		if !ensureDevFull() {
 			return "", true
 		}
+		defer ensureDevFull()
 	}
 	dir, err := os.MkdirTemp("", "c18-")
 	if err != nil {
@@ -488,7 +509,11 @@ func TestGenerated(t *testing.T) {
 		}
 		msg, skipped := run(s)
 		if skipped {
-			ev.Label("skipped:no_second_file_system")
+			if s.dst == dstDevFull {
+				ev.Label("skipped:/dev/full_is_not_the_device_and_cannot_be_put_back")
+			} else {
+				ev.Label("skipped:no_second_file_system")
+			}
 			return
 		}
 		if msg != "" {
